@@ -317,3 +317,47 @@ func Misc(k int) int {
 	<-done
 	return v
 }
+
+// IdleStream: a producer that gives up when the consumer is silent for a second.
+// With a prompt consumer the result is complete.
+func IdleStream(n int) []int {
+	out := make(chan int)
+	go func() {
+		defer close(out)
+		idle := time.NewTimer(time.Second)
+		defer idle.Stop()
+		for i := 0; i < n; i++ {
+			if !idle.Stop() {
+				select {
+				case <-idle.C:
+				default:
+				}
+			}
+			idle.Reset(time.Second)
+			select {
+			case out <- i:
+			case <-idle.C:
+				return
+			}
+		}
+	}()
+	var res []int
+	for v := range out {
+		res = append(res, v)
+	}
+	return res
+}
+
+// Ticks: count three ticks of a ticker.
+func Ticks() int {
+	t := time.NewTicker(10 * time.Millisecond)
+	defer t.Stop()
+	n := 0
+	for range t.C {
+		n++
+		if n == 3 {
+			break
+		}
+	}
+	return n
+}
